@@ -3,7 +3,7 @@ import warnings
 import numpy as np, pandas as pd
 from fractions import Fraction
 from core import Result
-import proto, gen
+import proto, gen, implutil
 
 THEOREMS = ['C07_detector_args', 'C07_fraction', 'C07_fraction_inside', 'C07_fraction_range', 'C07_rule', 'C07_pointwise', 'C07_one_minN',
             'C07_antitone', 'C07_rejects_threshold', 'C07_rejects_amp_threshes']
@@ -43,8 +43,8 @@ def _signal_case(c):
     try:
         with warnings.catch_warnings():
             warnings.simplefilter('ignore')
-            df = compute_features(sig, c['fs'], tuple(c['f_range']), center_extrema=c['center'], burst_method='amp',
-                                  burst_kwargs=bk, threshold_kwargs=th)
+            df = implutil.twice(lambda: compute_features(sig, c['fs'], tuple(c['f_range']), center_extrema=c['center'], burst_method='amp',
+                                                         burst_kwargs=bk, threshold_kwargs=th), [sig, bk, th], 'compute_features')
     except Exception as e:
         return dict(err=type(e).__name__, msg=str(e)[:200])
     side = 'trough' if c['center'] == 'peak' else 'peak'
